@@ -150,11 +150,9 @@ def make_measure(shape, q=4, pin_pitch=True):
                 # if the measure were written as one segment)
                 require(on_b + d_b <= half)
                 require(on_a >= half)
-                exclude_known("KF-C03-gap-before-divisions-change", on_b + d_b != half)
             else:
                 require(on_a + d_a <= half)
                 require(on_b >= half)
-                exclude_known("KF-C03-gap-before-divisions-change", on_a + d_a != half)
             part.set_quarter_duration(t0 + half, 2 * q)
             # (timeline ticks after the change are half as long: b keeps its tick values)
         if shape in ("rest_tie", "all"):
